@@ -60,6 +60,9 @@ pub struct RunStats {
     pub clock_max: u64,
     /// outcome classes seen: ok / err / ...
     pub outcomes: BTreeMap<String, u64>,
+    /// wall milliseconds of this run inside the worker (diagnostic; never enters a hash)
+    #[serde(default)]
+    pub elapsed_ms: u64,
 }
 
 impl RunStats {
